@@ -296,6 +296,78 @@ class Unit:
         self.enums = self.raw['enums']
         self.fdecls = self.raw['fdecls']
         self.macros_tested = self.raw['macros_tested']
+        self._resolve_dispatch_tables()
+
+    def _resolve_dispatch_tables(self):
+        """Constant tables of function pointers (`static const struct { f *a; g *b; } table[] = {{x, y}, ..}`): when every object
+        of the record type in this unit is such a const table, an indirect call through field `a` can only reach the functions
+        named in that column.  The call nodes get c['targets'] = sorted names (callee_name stays None)."""
+        cols = {}        # (record type string, field) -> set of function names
+        const_types = set()
+        bad_types = set()
+
+        def rec_of(tid):
+            import re
+            base = re.sub(r'\[[^\]]*\]', '', self.types[tid]['s'])
+            base = re.sub(r'\bconst\b|\bstruct\b|\*', ' ', base)
+            return ' '.join(base.split())
+        objs = [(g, True) for g in self.globals] + [(d, False) for (_f, d) in self.static_locals()]
+        for (g, _isg) in objs:
+            t = self.types[g['ty']]
+            if t['c'] not in ('array', 'record'):
+                continue
+            rn = rec_of(g['ty'])
+            rec = None
+            for r in self.raw['records']:
+                if r['name'] == rn:
+                    rec = r
+            if rec is None or not rec['fields'] or not all(self.types[f['ty']].get('fnptr') for f in rec['fields']):
+                continue
+            if not (g.get('const') or t.get('const')) or 'init' not in g:
+                bad_types.add(rn)
+                continue
+            ini = strip_casts(g['init'])
+            rows = ini['inits'] if t['c'] == 'array' else [ini]
+            ok = True
+            for row in rows:
+                row = strip_casts(row)
+                if row.get('k') != 'initlist' or len(row['inits']) != len(rec['fields']):
+                    ok = False
+                    break
+                for f, cell in zip(rec['fields'], row['inits']):
+                    c0 = strip_casts(cell)
+                    if c0.get('k') == 'un' and c0['op'] == '&':
+                        c0 = strip_casts(c0['e'])
+                    if c0.get('k') == 'ref' and c0.get('dk') == 'fn':
+                        cols.setdefault((rn, f['n']), set()).add(c0['n'])
+                    else:
+                        ok = False
+            if ok:
+                const_types.add(rn)
+            else:
+                bad_types.add(rn)
+        good = const_types - bad_types
+        if not good:
+            return
+        # no other object of these types: no local, parameter or member holds one by value
+        for fn in self.function_list:
+            for d in list(fn.params) + list(fn.locals()):
+                t = self.types[d['ty']]
+                if t['c'] in ('record', 'array') and rec_of(d['ty']) in good and not d.get('static'):
+                    good.discard(rec_of(d['ty']))
+        for fn in self.function_list:
+            for c in fn.calls():
+                if c.get('callee') is not None:
+                    continue
+                f = strip_casts(c['fn'])
+                if f.get('k') == 'un' and f['op'] == '*':
+                    f = strip_casts(f['e'])
+                if f.get('k') != 'mem':
+                    continue
+                b = strip_casts(f['b'])
+                rn = rec_of(b.get('ty0', b['ty']))
+                if rn in good and (rn, f['f']) in cols:
+                    c['targets'] = sorted(cols[(rn, f['f'])])
 
     def ty(self, n_or_id):
         i = n_or_id if isinstance(n_or_id, int) else n_or_id['ty']
@@ -354,6 +426,8 @@ def call_graph(units):
             for c in fn.calls():
                 cn = callee_name(c)
                 if cn is None:
+                    for t in c.get('targets', []):       # dispatch through a constant table of functions
+                        s.add(resolve(units, u, t))
                     continue
                 s.add(resolve(units, u, cn))
     return g
